@@ -32,6 +32,12 @@ func init() { register("undo", runUndo) }
 
 // ---------------------------------------------------------------- canonical encoding
 
+// reidOld (positional argument `reid=old`): run with the predicates of the listed finding
+// F-C14-array-reid as they were before hooks/fix-c14-reconcile-parent.patch (for a tree without
+// the repair, together with `fixReconcileParent := false` in Model/Undo.lean). Default: the
+// repaired tree - no stale-parent / same-entry / dead-twin behaviour is tolerated.
+var reidOld bool
+
 // dumpOmitRemoved: in GC-on traces removed members of objects are not dumped (a replica may or may
 // not have purged them already, which Marshal cannot see).
 var dumpOmitRemoved bool
@@ -491,7 +497,7 @@ func opsNote(w *undoWorld, ops []operations.Operation, fromUndo bool) {
 		case *operations.Move, *operations.ArraySet:
 			_ = o
 			w.approx = true
-			if _, ok := op.(*operations.Move); ok && len(w.deadIDs) > 0 {
+			if _, ok := op.(*operations.Move); ok && len(w.deadIDs) > 0 && reidOld {
 				w.asetStale = true // twins present: a move may flip which one the skip rule resolves to
 			}
 		}
@@ -499,6 +505,27 @@ func opsNote(w *undoWorld, ops []operations.Operation, fromUndo bool) {
 }
 
 // edit runs one Update described by spec and emits its operations.
+// linkedByID: the element registered under the identity exists and is still linked into the
+// document tree. (The purge of a re-used identity unlinks the live restored node from its parent;
+// whether the registration itself survives depends on Root.deregisterElement's instance check.)
+func linkedByID(root *crdt.Root, t *time.Ticket) bool {
+	el := root.FindByCreatedAt(t)
+	if el == nil {
+		return false
+	}
+	if el == crdt.Element(root.Object()) {
+		return true
+	}
+	found := false
+	root.Object().Descendants(func(e crdt.Element, _ crdt.Container) bool {
+		if e == el {
+			found = true
+		}
+		return found
+	})
+	return found
+}
+
 func hasTwinIDs(op operations.Operation) bool {
 	var v crdt.Element
 	switch o := op.(type) {
@@ -618,6 +645,11 @@ func (w *undoWorld) undoRedo(rep *undoRep, isUndo bool) {
 				staleParent = true
 			}
 		}
+		if !reidOld {
+			// repaired tree (hooks/fix-c14-reconcile-parent.patch): none of this is expected any
+			// more; a recurrence is a plain violation
+			stale, staleParent, w.asetStale = false, false, false
+		}
 	}
 	if stale || staleParent || w.asetStale {
 		// from here on operations have run (or will run) on dead twins; ReconcileCreatedAt rewrites
@@ -660,7 +692,7 @@ func (w *undoWorld) undoRedo(rep *undoRep, isUndo bool) {
 	// RegisterElement lets the LAST visited copy win, i.e. the dead one; the model keeps one entry
 	for _, cn := range chs[min(before, len(chs)):] {
 		for _, op := range cn.Operations() {
-			if hasTwinIDs(op) {
+			if hasTwinIDs(op) && reidOld {
 				w.twinSnap = true
 				if !w.mute {
 					w.mute = true
@@ -835,15 +867,15 @@ func (w *undoWorld) sync(rep *undoRep) {
 			// a delivered operation addresses the old identity (or a descendant) of an array element
 			// an undo/redo re-identified: Go runs it on the dead twin copy, the model has one entry
 			k := op.ParentCreatedAt().Key()
-			if (w.deadIDs[k] || w.asetDeadIDs[k]) && !w.mute {
+			if reidOld && (w.deadIDs[k] || w.asetDeadIDs[k]) && !w.mute {
 				w.mute = true
 				w.c.Count("muted-traces:remote-into-reid")
 			}
 		}
 	}
 	for _, x := range rep.reused {
-		if rep.doc.InternalDocument().Root().FindByCreatedAt(x.t) == nil &&
-			x.author.doc.InternalDocument().Root().FindByCreatedAt(x.t) != nil {
+		if !linkedByID(rep.doc.InternalDocument().Root(), x.t) &&
+			linkedByID(x.author.doc.InternalDocument().Root(), x.t) {
 			w.knownGC = fmt.Sprintf("replica %s applied a remote Set that re-used identity %s, which it had registered as removed; "+
 				"its GC pass then purged the restored element (DeregisterElement is gated on OpSourceUndoRedo)", rep.name, encTicket(x.t))
 		}
@@ -1507,6 +1539,7 @@ func runUndo(c *Ctx) error {
 		"stacks and compared with the operations of the change the implementation appended, Marshal() and stack depths after every " +
 		"step; C14 stream: single replica, non-trivial = at least one Undo/Redo executed; C15 stream: two replicas over a simulated " +
 		"server log with wire round trip, non-trivial = an undo/redo change was delivered to the peer; distinct by trace hash"
+	reidOld = argOf("reid", "") == "old"
 	if c.Replay != nil {
 		var w *undoWorld
 		for _, l := range c.Replay {
